@@ -44,7 +44,10 @@ SEARCH_N = 60
 SHARD = 20
 DRIVER_TIMEOUT = 1500
 COQ_FILES = ["theories/C12/Props.v", "theories/C12/Link.v"]
-RULE = ("differential histories of 30-60 operations: 55% redis.Redis (all context-form methods except GeoHash, in "
+RULE = ("round 2 adds: histories over 2-4 addresses in one process with server restarts (clients re-dial), kv histories with "
+        "shard restarts and key-placement snapshots, one dead-context stream per table (every context-form method with a "
+        "cancelled / expired context after a mark; keyspace frozen), SetSha/GetSha streams, EvalSha via the script cache; "
+        "differential histories of 30-60 operations: 55% redis.Redis (all context-form methods except GeoHash, in "
         "context / plain / cancelled-context form) vs raw go-redis on twin miniredis, 43% kv.Store over 1-4 weighted "
         "shards vs raw go-redis on one server, 2% breaker phases (30 absent-key calls, 30 cancelled calls, 30 calls to a "
         "dead server); keys drawn from typed pools (strings, hashes, lists, sets, zsets, hll, bitmaps, geo) with 12% "
@@ -298,7 +301,7 @@ WRITERS = ["SetCtx", "HSetCtx", "LPushCtx", "RPushCtx", "SAddCtx", "ZAddCtx", "Z
 
 def _form(rng):
     x = rng.random()
-    return "ctx" if x < 0.6 else ("plain" if x < 0.95 else "canceled")
+    return "ctx" if x < 0.6 else ("plain" if x < 0.93 else ("canceled" if x < 0.97 else "deadline"))
 
 
 def _history(rng, ops, nops, focus=None):
@@ -329,29 +332,101 @@ def _weights(rng):
     return ws
 
 
+def _multi(rng):
+    """several addresses in one process: wrappers 0..n-1 created in that order, commands on all of them, the servers
+    of earlier-created wrappers restarted (pooled connections must be re-dialled), commands again"""
+    n = rng.randint(2, 4)
+    ops = []
+    for phase in range(rng.randint(2, 4)):
+        for _ in range(rng.randint(8, 14)):
+            op = _history(rng, REDIS_OPS, 1)[0] if phase else {"m": rng.choice(WRITERS), "form": "ctx", "a": None}
+            if op["a"] is None:
+                op["a"] = REDIS_OPS[op["m"]](rng)
+            op["w"] = rng.randrange(n)
+            ops.append(op)
+        victims = [0] if rng.random() < 0.5 else sorted(rng.sample(range(n), rng.randint(1, n)))
+        for v in victims:
+            ops.append({"m": "#restart", "w": v, "form": "ctx", "a": []})
+    for i in range(n):      # every wrapper speaks once more after the last restart
+        for m in ("IncrByCtx", "RPushCtx", "GetCtx"):
+            ops.append({"m": m, "w": i, "form": "ctx", "a": REDIS_OPS[m](rng)})
+    return {"kind": "diff", "n": n, "seed": rng.randrange(1 << 16), "ops": ops}
+
+
+def _dead(rng, kv):
+    """every context-form method once with a context that is already cancelled / past its deadline, after a live
+    set-up; the server must not be touched after the mark"""
+    ops_tbl = KV_OPS if kv else REDIS_OPS
+    ops = [{"m": m, "form": "ctx", "a": ops_tbl[m](rng)} for m in [rng.choice([w for w in WRITERS if w in ops_tbl]) for _ in range(16)]]
+    ops.append({"m": "#mark", "form": "ctx", "a": []})
+    names = sorted(ops_tbl)
+    rng.shuffle(names)
+    for m in names:
+        ops.append({"m": m, "form": rng.choice(["canceled", "deadline"]), "a": ops_tbl[m](rng)})
+    if kv:
+        return {"kind": "kv", "seed": rng.randrange(1 << 16), "weights": [100, 50, 100], "ops": ops, "dead": True}
+    return {"kind": "diff", "n": 1, "seed": rng.randrange(1 << 16), "ops": ops, "dead": True}
+
+
+def _sha(rng):
+    """SetSha / GetSha histories over few script texts (texts registered repeatedly with different shas)"""
+    texts = LUA[:3] + ["return 1", ""]
+    ops = []
+    for _ in range(rng.randint(10, 40)):
+        t = rng.choice(texts)
+        if rng.random() < 0.5:
+            ops.append({"m": "set", "a": [t, hashlib.sha1((t + str(rng.randrange(3))).encode()).hexdigest()]})
+        else:
+            ops.append({"m": "get", "a": [t]})
+    return {"kind": "sha", "ops": ops}
+
+
+def _with_cached_eval(rng, case):
+    for _ in range(rng.randint(1, 4)):
+        i, k, argv = _eval_args(rng)
+        case["ops"].insert(rng.randrange(len(case["ops"]) + 1), {"m": "#EvalCached", "form": "ctx", "a": [i, [k], argv]})
+    return case
+
+
+def _with_restarts(rng, case):
+    for _ in range(rng.randint(1, 3)):
+        case["ops"].insert(rng.randrange(5, len(case["ops"])), {"m": "#restart", "w": rng.randrange(len(case["weights"])), "form": "ctx", "a": []})
+    return case
+
+
 def generate(rng, tier, n):
     cases = []
     nb = 1 if tier in ("quick", "search") else max(2, n // 200)
-    for i in range(n):
-        if i < nb:
-            cases.append({"kind": "breaker", "n": 30})
-        elif rng.random() < 0.56:
-            cases.append({"kind": "diff", "seed": rng.randrange(1 << 16), "ops": _history(rng, REDIS_OPS, rng.randint(30, 60))})
+    fixed = [{"kind": "breaker", "n": 30}] * nb + [_dead(rng, False), _dead(rng, True)] * nb + [_sha(rng) for _ in range(4 * nb)]
+    cases.extend(fixed[:n])
+    while len(cases) < n:
+        x = rng.random()
+        if x < 0.42:
+            c = {"kind": "diff", "n": 1, "seed": rng.randrange(1 << 16), "ops": _history(rng, REDIS_OPS, rng.randint(30, 60))}
+            cases.append(_with_cached_eval(rng, c) if rng.random() < 0.4 else c)
+        elif x < 0.58:
+            cases.append(_multi(rng))
         else:
-            cases.append({"kind": "kv", "seed": rng.randrange(1 << 16), "weights": _weights(rng),
-                          "ops": _history(rng, KV_OPS, rng.randint(30, 60))})
+            c = {"kind": "kv", "seed": rng.randrange(1 << 16), "weights": _weights(rng),
+                 "ops": _history(rng, KV_OPS, rng.randint(30, 60))}
+            cases.append(_with_restarts(rng, c) if rng.random() < 0.4 else c)
     return cases
 
 
 def search(rng, problems):
-    """Directed: one short history per method, dense in that method (the failing-input search after a table change)."""
+    """Directed: one short history per method, dense in that method (the failing-input search after a table change),
+    plus the dead-context, several-address, restart and script-cache streams."""
     cases = []
     for m in sorted(REDIS_OPS):
-        cases.append({"kind": "diff", "seed": rng.randrange(1 << 16), "ops": _history(rng, REDIS_OPS, 22, focus=m)})
+        cases.append({"kind": "diff", "n": 1, "seed": rng.randrange(1 << 16), "ops": _history(rng, REDIS_OPS, 22, focus=m)})
     for m in sorted(KV_OPS):
         cases.append({"kind": "kv", "seed": rng.randrange(1 << 16), "weights": [100, 50, 100],
                       "ops": _history(rng, KV_OPS, 22, focus=m)})
     cases.append({"kind": "breaker", "n": 30})
+    cases += [_dead(rng, False), _dead(rng, True), _sha(rng), _sha(rng)]
+    cases += [_multi(rng) for _ in range(6)]
+    cases += [_with_restarts(rng, {"kind": "kv", "seed": rng.randrange(1 << 16), "weights": [100, 100, 50],
+                                   "ops": _history(rng, KV_OPS, 30)}) for _ in range(4)]
     return cases
 
 
@@ -428,13 +503,25 @@ def enc_reply(r):
     return cpair(enc_val(r["v"]), enc_err(r["e"]))
 
 
+TAIL0 = "false [] [] []"
+
+
 def encode(case, obs):
     if "error" in obs or "driver_panic" in obs:
         # a driver failure is a mismatch, not a crash of the pipeline
-        return "mkcase 0%nat [mkstep \"driver error\"%string false [] (VZero, ENone) (VZero, ENone) 0%nat \"\"%string \"\"%string] [] [] []"
+        return ("mkcase 0%nat [mkstep \"driver error\"%string false [] (VZero, ENone) (VZero, ENone) 0%nat \"\"%string "
+                "\"\"%string] [] [] [] " + TAIL0)
     if case["kind"] == "breaker":
         ph = [clist([cpair(enc_err(e), cnat(TOLD[t])) for e, t in obs[k]]) for k in ("nil", "canceled", "dead")]
-        return "mkcase 2%%nat [] [] [] %s" % clist(ph)
+        return "mkcase 2%%nat [] [] [] %s %s" % (clist(ph), TAIL0)
+    if case["kind"] == "sha":
+        ops = []
+        for op, o in zip(case["ops"], obs["sha"]):
+            if op["m"] == "set":
+                ops.append("SSet %s %s" % (cs(op["a"][0]), cs(op["a"][1])))
+            else:
+                ops.append("SGet %s %s" % (cs(op["a"][0]), "None" if o is False else "(Some %s)" % cs(o)))
+        return "mkcase 3%%nat [] [] [] [] false [] [] %s" % clist(ops)
     steps = []
     for op, st in zip(case["ops"], obs["steps"]):
         if "skip" in st:
@@ -443,11 +530,15 @@ def encode(case, obs):
             steps.append("mkstep %s %s [] (VZero, ENone) (VZero, ENone) 0%%nat \"\"%%string \"\"%%string" % (
                 cs(op["m"] if not unknown else "?" + op["m"]), cbool(not unknown)))
             continue
+        m = "EvalCtx" if op["m"] == "#EvalCached" else op["m"]   # EvalSha(GetSha(script)) is documented to be Eval(script)
         steps.append("mkstep %s false %s %s %s %s %s %s" % (
-            cs(op["m"]), clist([enc_arg(a) for a in op["a"]]), enc_reply(st["r"]), enc_reply(st["w"]),
+            cs(m), clist([enc_arg(a) for a in op["a"]]), enc_reply(st["r"]), enc_reply(st["w"]),
             cnat(TOLD[st["brk"]]), cs(st["xw"]), cs(st["xr"])))
     dump = lambda d: clist([cpair(cs(k), cs(v)) for k, v in d])
-    return "mkcase %s %s %s %s []" % (cnat(1 if case["kind"] == "kv" else 0), clist(steps), dump(obs["dump_w"]), dump(obs["dump_r"]))
+    places = clist([cpair(cs(k), cnat(i)) for k, i in obs.get("places", [])])
+    return "mkcase %s %s %s %s [] %s %s %s []" % (
+        cnat(1 if case["kind"] == "kv" else 0), clist(steps), dump(obs["dump_w"]), dump(obs["dump_r"]),
+        cbool("dump_w0" in obs), dump(obs.get("dump_w0", [])), places)
 
 
 # ------------------------------------------------------------------------------------- evidence
@@ -458,6 +549,9 @@ def _executed(obs):
 def nontrivial(case, obs):
     if case["kind"] == "breaker":
         return any(e == "Unavailable" for e, _ in obs.get("dead", []))
+    if case["kind"] == "sha":
+        got = [o for op, o in zip(case["ops"], obs.get("sha", [])) if op["m"] == "get"]
+        return any(o is False for o in got) and len({o for o in got if o}) >= 2
     ex = _executed(obs)
     conv = any(s["w"]["v"] != s["r"]["v"] and s["w"]["e"] == "nil" for s in ex)
     errs = any(s["r"]["e"] != "nil" for s in ex)
@@ -469,13 +563,19 @@ def bucket(case, obs):
     if case["kind"] == "breaker":
         out.append("breaker:rejected=%d" % sum(1 for e, _ in obs.get("dead", []) if e == "Unavailable"))
         return out
+    if case["kind"] == "sha":
+        return out + ["sha:" + op["m"] for op in case["ops"]]
+    if case.get("dead"):
+        out.append("stream:dead-context")
+    if case.get("n", 1) > 1:
+        out.append("addresses=%d" % case["n"])
     if case["kind"] == "kv":
         out.append("shards=%d" % len(case["weights"]))
-        if len(set(obs.get("placement", {}).values())) > 1:
-            out.append("kv:keys-on-several-shards")
+        if len({i for _, i in obs.get("places", [])}) > 1:
+            out.append("kvstate:keys-on-several-shards")
     for op, st in zip(case["ops"], obs.get("steps", [])):
         if "skip" in st:
-            out.append("skip:" + st["skip"].split(" ")[0])
+            out.append("skip:" + st["skip"].split(" ")[0] + (":kv" if case["kind"] == "kv" and st["skip"] == "restart" else ""))
             continue
         out.append(("kv:" if case["kind"] == "kv" else "m:") + op["m"])
         out.append("form:" + op["form"])
@@ -486,6 +586,9 @@ def bucket(case, obs):
 
 
 def explain(case, obs):
+    if case["kind"] == "sha":
+        return ("script cache stream contradicts C12.Exec.spec_ok: some GetSha(script) did not answer the most recent sha "
+                "registered by SetSha for exactly that text (or answered for a text never registered)")
     if case["kind"] == "breaker":
         return ("breaker phases contradict C12.Exec.spec_ok: a redis.Nil / context.Canceled call was rejected or counted as a "
                 "failure, or connection-level failures were not counted / never led to ErrServiceUnavailable")
@@ -494,7 +597,8 @@ def explain(case, obs):
             continue
     return ("differential history contradicts C12.Exec.spec_ok: some wrapper reply is not the documented conversion "
             "(RedisSpec.redis_spec / kv_spec) of the raw go-redis reply on the twin server, or the breaker was told something "
-            "else than acceptable(err), or the final keyspaces differ (kv: union of the shards vs one server)")
+            "else than acceptable(err), or the final keyspaces differ (kv: union of the shards vs one server; several addresses: each wrapper's server vs its "
+            "twin), or a call with a dead context touched the server, or a key was found on a shard other than its owner's")
 
 
 def shrink(v):
